@@ -8,13 +8,15 @@ wt=/tmp/confirm_$$
 git -C /repo worktree add -q --detach "$wt" HEAD || exit 9
 cd "$wt"
 demo=$(ls "$src" | grep -E '^demo.*\.py$' | head -1)
+# run the demo from inside the scratch worktree (seed/<name>/demo.py), as the seeders did
+mkdir -p "$wt/seed/case"; cp -r "$src"/* "$wt/seed/case/"; src_run="$wt/seed/case"
 res_clean="?"; res_patch="?"; suite="?"
-PYTHONPATH="$wt" timeout 600 /venv/bin/python "$src/$demo" >/tmp/confirm_clean.log 2>&1; rc_clean=$?
-if git apply --3way "$src/patch.diff" 2>/tmp/confirm_apply.log || git apply "$src/patch.diff" 2>>/tmp/confirm_apply.log; then
+PYTHONPATH="$wt" timeout 900 /venv/bin/python "$src_run/$demo" >/tmp/confirm_clean.log 2>&1; rc_clean=$?
+if git apply --3way --exclude='seed/*' "$src/patch.diff" 2>/tmp/confirm_apply.log || git apply "$src/patch.diff" 2>>/tmp/confirm_apply.log; then
   git reset -q
   suite=$(PYTHONPATH="$wt" /venv/bin/python -m pytest -q -p no:cacheprovider --timeout=900 2>&1 | tail -1)
-  PYTHONPATH="$wt" timeout 600 /venv/bin/python "$src/$demo" >/tmp/confirm_patch.log 2>&1; rc_patch=$?
-  git diff > /tmp/confirm_patch.diff
+  PYTHONPATH="$wt" timeout 900 /venv/bin/python "$src_run/$demo" >/tmp/confirm_patch.log 2>&1; rc_patch=$?
+  git diff -- . ':!seed' > /tmp/confirm_patch.diff
 else
   echo "patch does not apply to HEAD"; cat /tmp/confirm_apply.log | tail -3; rc_patch=-1
 fi
@@ -22,7 +24,7 @@ cd /; git -C /repo worktree remove --force "$wt"
 echo "suite_with_patch: $suite | demo_clean_rc=$rc_clean demo_patch_rc=$rc_patch"
 if [[ "$suite" == *"209 passed"* && $rc_clean -eq 0 && $rc_patch -ne 0 && $rc_patch -ne -1 ]]; then
   d=/verif/seeded/$sid; mkdir -p "$d"
-  cp /tmp/confirm_patch.diff "$d/patch.diff"; cp "$src/$demo" "$d/$demo"
+  cp /tmp/confirm_patch.diff "$d/patch.diff"; cp "$src/$demo" "$d/$demo"; for f in "$src"/*.yaml "$src"/*.json; do [ -f "$f" ] && [ "$(basename $f)" != meta.json ] && cp "$f" "$d/"; done
   /venv/bin/python - "$src/meta.json" "$d/meta.json" "$suite" "$rc_clean" "$rc_patch" "$demo" <<'PY'
 import json,sys
 m=json.load(open(sys.argv[1]))
